@@ -268,6 +268,8 @@ class Run:
 
         for h in sc.get('handlers', []):
             prog(h['prog'])
+            if h.get('cleanup'):
+                m = max(m, h['cleanup'])
         for a in sc.get('actors', []):
             prog(a)
         return m
@@ -278,6 +280,8 @@ class Run:
         kw['seq'] = self.n
         kw['vt'] = self.loop._vt if self.loop is not None else 0.0
         self.tr.append(kw)
+        if self.loop is not None:
+            self.loop._same_t = 0  # observable progress: the zero-time livelock detector counts iterations WITHOUT any record
         if self.n > self.max_records and self.loop is not None:
             self.loop.max_steps = 0  # runaway program: the loop aborts with Hang('steps') at its next iteration
         return self.n
@@ -587,6 +591,14 @@ class Run:
                 return await run._prog(prog, inv, event, run.tag_of(event), True)
             except asyncio.CancelledError:
                 out = 'cancel'
+                run.rec('h_cancelled', inv=inv)
+                if h.get('cleanup'):
+                    # user code that needs time to unwind after cancellation (awaited cleanup in finally / except)
+                    try:
+                        await asyncio.sleep(h['cleanup'])
+                        run.rec('h_cleanup_done', inv=inv)
+                    except asyncio.CancelledError:
+                        run.rec('h_cleanup_interrupted', inv=inv)
                 raise
             except BaseException as ex:
                 out, eid, et = 'raise', id(ex), type(ex).__name__
@@ -900,7 +912,7 @@ def run_scenario(sc: dict, workdir: str | None = None, keep_run: bool = False):
         shutil.rmtree(wd, ignore_errors=True)
         os.makedirs(wd, exist_ok=True)
     run = Run(sc, wd)
-    loop = VLoop(seed=seed, jitter=lp.get('jitter', 0.0), cpu=lp.get('cpu', 0.0), horizon=lp.get('horizon', 600.0), max_steps=lp.get('max_steps', 400_000), livelock=lp.get('livelock', 40_000))
+    loop = VLoop(seed=seed, jitter=lp.get('jitter', 0.0), cpu=lp.get('cpu', 0.0), horizon=lp.get('horizon', 600.0), max_steps=lp.get('max_steps', 400_000), livelock=lp.get('livelock', 25_000))
     run.loop = loop
     loop.set_exception_handler(lambda l, ctx: run.rec('loop_exc', msg=str(ctx.get('message'))[:200], exc=type(ctx.get('exception')).__name__ if ctx.get('exception') else None))
     asyncio.set_event_loop(loop)
@@ -955,10 +967,17 @@ def _install_io_fault(fault, run):
     orig_open = anyio.open_file
     state = {'open': 0, 'write': 0}
 
+    def bus_of(path):
+        for i, b in run.buses.items():
+            if b.wal_path is not None and str(b.wal_path) == str(path):
+                return i
+        return None
+
     async def open_file(*a, **kw):
         state['open'] += 1
+        path = a[0] if a else kw.get('file')
         if fault['kind'] == 'open' and state['open'] in fault['n']:
-            run.rec('io_fault', kind='open', n=state['open'])
+            run.rec('io_fault', kind='open', n=state['open'], bus=bus_of(path))
             raise OSError(5, 'injected open failure')
         f = await orig_open(*a, **kw)
         if fault['kind'] == 'write':
@@ -967,7 +986,7 @@ def _install_io_fault(fault, run):
             async def write(data):
                 state['write'] += 1
                 if state['write'] in fault['n']:
-                    run.rec('io_fault', kind='write', n=state['write'])
+                    run.rec('io_fault', kind='write', n=state['write'], bus=bus_of(path))
                     raise OSError(28, 'injected write failure')
                 return await orig_write(data)
             f.write = write  # type: ignore[method-assign]
